@@ -6,7 +6,7 @@ from gmc.core import Acc
 
 ID = 'C04'
 RULE = ('grid of non-self-locking chains (1-, 2-, 3-stage; ratios, efficiencies, inertias from 3-value lists) x motor {plain, with current '
-        'data} x duty {1, 0.6, -0.7, inside the dead zone} x load/stall {0, 0.5, 1.5, -0.5} x initial speed {0, +, -} x horizon 4/k x '
+        'data} x duty {1, 0.6, -0.7, inside the dead zone, 3 % outside it on either side} x load/stall {0, 0.5, 1.5, -0.5} x initial speed {0, +, -} x horizon 4/k x '
         'geometric ladder dt = 0.2/k 2^-j; every instant of every run is compared with the closed form under a rigorous explicit-Euler '
         'bound; error ratios between consecutive rungs at t = 1/k and 2/k; canon = (configuration, rung); non-trivial = k > 0 and w0 != w_inf')
 ASSUMPTIONS = ['w\' = -k (w - w_inf), k = Tmax(D) R^2 H / (D w0 J), w_inf = (D w0 / R)(1 - L / (Tmax(D) R H)); constant acceleration -L/J inside the dead zone',
@@ -21,7 +21,7 @@ CHAINS = {
     3: [('J', 'F'), ('J', 'S'), ('G', 'S'), ('J', 'H'), ('G', 'H')],
     4: [('J', 'S'), ('G', 'S'), ('G', 'S')],          # an idler: slave of one mating and master of the next
 }
-DUTIES = [1, 0.6, -0.7, 0.03]
+DUTIES = [1, 0.6, -0.7, 0.03, 0.0515, -0.0515]     # dead zone of the menu's motor: |D| <= 0.05; the last two are 3 % outside it
 LOADS = [0.0, 0.5, 1.5, -0.5]
 WINIT = [0.0, 0.6, -0.4]          # fraction of the no-load speed at the output
 
